@@ -107,6 +107,9 @@ fn over_limit_values(run: &Run) {
 }
 
 pub fn run(run: &Run) {
+    // batches that consume a coin twice (and their honest neighbours) with apply_tx_batch itself under loom: every parallel site,
+    // every way of cutting the batch, every interleaving of what the validation threads share
+    crate::loomrun::stf_interleavings(run, "C02", &["rivals", "shared-second-input", "faucet-spends-and-rival", "rivals-around-bystander", "chain", "chain-reversed"]);
     long_histories(run, run.thorough());
     over_limit_values(run);
     for sc in scenarios(run.thorough()) {
